@@ -23,6 +23,6 @@ For each change k in {{1,2}}:
  2. write a small standalone demonstration {wt}/demo{{k}}.py that exits 0 on the pristine code and exits non-zero (assertion failure with a short message) with the change applied. Run it as `cd {wt} && PYTHONPATH={wt} MPLBACKEND=Agg /venv/bin/python demo{{k}}.py`. The demonstration must check the property itself (against an independent expectation: arithmetic you do by hand / with fractions / documented constants), not merely compare to frozen outputs of the pristine code;
  3. confirm the full test suite still passes WITH the change: `cd {wt} && PYTHONPATH={wt} MPLBACKEND=Agg /venv/bin/python -m pytest -q -p no:cacheprovider --timeout=900 -x -n 0 2>&1 | tail -5` (if `-n` is not recognised drop it; the suite takes 2-3 minutes; the single test tests/test_inventory.py::TestInventoryHP::test_plot fails on the pristine tree too and is to be ignored; everything else must pass);
  4. restore the worktree (`git -C {wt} checkout -- .`) before starting the next change, keeping the mut*.diff and demo*.py files (they are untracked).
-Use only /venv/bin/python (it has numpy, scipy, sympy, pandas, matplotlib, networkx, pytest). There is no network. Importing the package takes ~10 s. Leave the worktree restored at the end (only the untracked mut1.diff, mut2.diff, demo1.py, demo2.py remain).
+Never use `git stash` (the stash is shared between worktrees); to test on pristine code save your diff to a file, `git checkout -- .`, and re-apply with `git apply`. Run pytest without -x. Use only /venv/bin/python (it has numpy, scipy, sympy, pandas, matplotlib, networkx, pytest). There is no network. Importing the package takes ~10 s. Leave the worktree restored at the end (only the untracked mut1.diff, mut2.diff, demo1.py, demo2.py remain).
 
 Report, for each change: the file/lines changed, one sentence on why it breaks the property, what is needed for it to manifest, and the outputs of the demo on pristine and changed code and of the test suite run.""")
